@@ -320,7 +320,8 @@ Proof.
   destruct (m_pos sm_sym_max s) as [[v s1]|ln|]; cbn [good fst snd] in G; [|apply cgood_of_err; exact G|contradiction].
   destruct G as [Hv H1]. specialize (S1 v s1 eq_refl). unfold shorter in S1.
   destruct (wrap32s v =? 0) eqn:Ez; [apply cgood_ok; split; [reflexivity | exact H1]|].
-  destruct (get_ok s1) as [H2 _]. set (s2 := snd (a_get s1)) in *.
+  assert (H2 : step_ok s1 (snd (m_get s1))) by (unfold m_get; destruct (a_peek s1 =? 0); [apply step_ok_refl | apply (proj1 (get_ok s1))]).
+  set (s2 := snd (m_get s1)) in *.
   pose proof (read_name_ok (fuel_of s2) s2 ltac:(unfold fuel_of; lia)) as G.
   assert (H02 : step_ok s s2) by (eapply step_ok_trans; eassumption).
   destruct (read_name (fuel_of s2) s2) as [[nm s3]|ln|]; cbn [good fst snd] in G;
